@@ -681,7 +681,19 @@ def llc_pdu_spec():
                                               "SNL"):
             spec["dsap"], spec["ssap"] = d, a
         return spec
-    one = st.tuples(base, sap_d, sap_s, st.booleans()).map(fix)
+    # connection requests by service name go to the service discovery SAP;
+    # the names a controller knows from the start ("urn:nfc:sn:sdp" itself
+    # included), the ones the device under test has bound, unknown ones
+    byname = st.tuples(
+        sap_s, st.sampled_from([b"urn:nfc:sn:sdp", b"urn:nfc:sn:sdp",
+                                b"urn:nfc:sn:echo", b"urn:nfc:sn:snep",
+                                b"urn:nfc:sn:handover", b"urn:nfc:sn:none",
+                                b"urn:nfc:sn:sdp\x00", b"", None]),
+        st.sampled_from([128, 128, 2175]), st.integers(0, 15)).map(
+        lambda t: {"type": "CONNECT", "dsap": 1, "ssap": t[0], "sn": t[1],
+                   "miu": t[2], "rw": t[3]})
+    one = st.one_of(*([st.tuples(base, sap_d, sap_s, st.booleans()).map(fix)]
+                      * 7 + [byname]))
     agf = st.lists(one, min_size=1, max_size=5).map(
         lambda l: {"type": "AGF", "dsap": 0, "ssap": 0,
                    "pdus": [q for q in l if q["type"] != "AGF"]})
@@ -1317,7 +1329,7 @@ def react_step():
         st.tuples(st.just("connect"), st.sampled_from(["in", "snep", "out"]),
                   st.sampled_from([128, 2175]), st.integers(0, 15),
                   st.sampled_from([None, None, b"urn:nfc:sn:echo",
-                                   b"urn:nfc:sn:none"])),
+                                   b"urn:nfc:sn:none", b"urn:nfc:sn:sdp"])),
         st.just(("symm",)))
     agf = st.lists(one, min_size=2, max_size=4).map(lambda q: ("agf", q))
     return st.one_of(one, one, one, agf).map(
